@@ -107,6 +107,11 @@ def c08_1(c: Ctx) -> None:
         r = U(call.func.value)
         atom = eq_atom(f'{r}.status', "'pending'")
         facts = Facts(lambda a: a == atom, cg=c.cg, unit=cu)
+        from .c10 import update_only_on_collected_pending
+
+        if update_only_on_collected_pending(cu, call):
+            c.ok(where(cu, call), f"{r}.update(error=…) only for results that were 'pending' when they were collected (nothing suspends in between)")
+            continue
         for n in g.nodes_of(q.stmt_of(call)):
             p = q.guard_search(g, n, f"{r}.status == 'pending'", facts)
             if p is None:
